@@ -376,23 +376,34 @@ class Context:
             prop_name = to_string(prop)
 
             if isinstance(descriptor, JSObject):
-                # Check for getter/setter
-                getter = descriptor.get("get")
-                setter = descriptor.get("set")
 
-                if getter is not UNDEFINED and getter is not NULL:
-                    obj.define_getter(prop_name, getter)
-                if setter is not UNDEFINED and setter is not NULL:
-                    obj.define_setter(prop_name, setter)
+                def present(field):
+                    # a field that is there with the value undefined differs from an absent one
+                    d = descriptor
+                    while d is not None:
+                        if field in d._properties:
+                            return True
+                        d = d._prototype
+                    return False
 
-                # Check for value (only if no getter/setter)
-                if getter is UNDEFINED and setter is UNDEFINED:
-                    value = descriptor.get("value")
-                    if value is not UNDEFINED:
-                        # a data descriptor replaces an accessor of the same name
+                # Check for getter/setter: a half the descriptor does not mention stays
+                # as it is, one it gives as undefined is removed
+                if present("get") or present("set"):
+                    getter = descriptor.get("get")
+                    setter = descriptor.get("set")
+                    if getter is not UNDEFINED and getter is not NULL:
+                        obj.define_getter(prop_name, getter)
+                    elif present("get") and prop_name in obj._setters:
                         obj._getters.pop(prop_name, None)
+                    if setter is not UNDEFINED and setter is not NULL:
+                        obj.define_setter(prop_name, setter)
+                    elif present("set") and prop_name in obj._getters:
                         obj._setters.pop(prop_name, None)
-                        obj.set(prop_name, value)
+                elif present("value"):
+                    # a data descriptor replaces an accessor of the same name
+                    obj._getters.pop(prop_name, None)
+                    obj._setters.pop(prop_name, None)
+                    obj.set(prop_name, descriptor.get("value"))
 
             return obj
 
